@@ -194,6 +194,7 @@ def _project_psbl(rows):
         e = r["e"]
         if e in ("Scenario", "End", "TryFail") or \
            (e in ("Acquire", "Release", "AcquireShared", "ReleaseShared") and r.get("name") == "pSBL.loopLock") or \
+           (e == "Release" and r.get("name") == "pSBL.loopLockCounter") or \
            (e == "Access" and (r["res"] == "pSBL.loopCounter" or (r["res"] == "pSBL.tree" and r.get("site") == "removeMotion"))):
             keep.append(r)
     return keep
@@ -219,7 +220,10 @@ def planner_traces(ck, tier, binary):
         # pSBL traces are the slowest to validate (one clock per motion mutex)
         sized.append((len(lines) * (3 if j["planner"] == "pSBL" else 1), j, lines))
         if os.path.exists(sv):
-            solve_rows += vlib.read_ndjson(sv)
+            for r in vlib.read_ndjson(sv):
+                r.setdefault("planner", j["planner"])      # a crash handler's row carries no job data
+                r.setdefault("status", r.get("e"))
+                solve_rows.append(r)
     sized.sort(key=lambda x: -x[0])
     bins = [[0, []] for _ in range(nb)]
     for w, j, lines in sized:
